@@ -158,6 +158,7 @@ type exec struct {
 	inlined  map[*ssa.Function]bool
 	exactMaps map[*ssa.MakeMap]bool
 	mapN     int
+	allocNamed map[string]bool // source-level variables that live in an allocated cell
 }
 
 type ownedParam struct {
@@ -339,6 +340,7 @@ func (x *exec) freshInput(st *pstate, name string, t types.Type) Val {
 	st.assume(x.p.T.Inv(c, t, 0), "type invariant of "+name)
 	x.inputs = append(x.inputs, NamedTerm{Name: name, T: c, Type: t.String()})
 	x.assumeAllocated(st, c, t)
+	x.assumeValueInv(st, c, t, "input "+name)
 	return x.wrap(c, t)
 }
 
@@ -563,6 +565,9 @@ func (x *exec) addWriteHeap(w *writeSet, addr ssa.Value) {
 	// functions) an element of a backing array of that type
 	pt := addr.Type().Underlying().(*types.Pointer)
 	w.root(x, pt.Elem())
+	if _, local := addr.(*ssa.Alloc); local {
+		return // the cell of a local variable: never an element of a slice
+	}
 	w.arr(x, pt.Elem())
 }
 
@@ -653,6 +658,25 @@ func (x *exec) assignHeaps(w *writeSet, c *Contract, callee *ssa.Function, a spe
 				return // a field of an owned node: no heap is involved
 			}
 			if pt, ok := t.Underlying().(*types.Pointer); ok {
+				// `assigns p.f` with p a pointer to a struct and f a plain field: only the heaps of f
+				// (and, because p may point at an element of a slice of such structs, their arrays)
+				if s1, direct := a.X.(*spec.Ident); direct && isGoStruct(pt.Elem()) {
+					_ = s1
+					si := x.p.T.StructOf(pt.Elem())
+					for i, f := range si.Fields {
+						if f.Name() != a.Name || isGoStruct(f.Type()) {
+							continue
+						}
+						_ = i
+						var out []leaf
+						x.env.leafNames("H$"+si.Sort.Name+"."+sanitize(f.Name()), x.p.T.SortOf(f.Type()), &out)
+						for _, lf := range out {
+							w.heaps[lf.name] = lf.sort
+						}
+						w.arr(x, pt.Elem())
+						return
+					}
+				}
 				w.root(x, pt.Elem())
 				w.arr(x, pt.Elem())
 				return
